@@ -876,7 +876,24 @@ func (in *Interp) conv(fr *frame, tDst, tSrc types.Type, x value) value {
 	case *symv:
 		kd := basicKind(tDst)
 		if kd == types.String {
-			// integer -> string (rune encoding): concretize
+			// integer -> string (rune encoding): one- and two-byte encodings stay symbolic (fork on
+			// the class), anything larger is concretized
+			if ks := basicKind(tSrc); ks == types.Uint8 || ks == types.Int32 || ks == types.Uint32 || ks == types.Int || ks == types.Uint16 {
+				p := in.pool
+				w := xv.t.w
+				if in.decide(fr, p.Bin(opULt, xv.t, p.Const(0x80, w))) {
+					return symstr{[]value{in.mkSym(p.Extract(xv.t, 7, 0), types.Uint8)}}
+				}
+				if w == 8 || in.decide(fr, p.Bin(opULt, xv.t, p.Const(0x800, w))) {
+					x16 := xv.t
+					if w == 8 {
+						x16 = p.ZExt(xv.t, 16)
+					}
+					hi := p.Bin(opBOr, p.Const(0xC0, 8), p.Extract(p.Bin(opLShr, x16, p.Const(6, x16.w)), 7, 0))
+					lo := p.Bin(opBOr, p.Const(0x80, 8), p.Bin(opBAnd, p.Extract(x16, 7, 0), p.Const(0x3F, 8)))
+					return symstr{[]value{in.mkSym(hi, types.Uint8), in.mkSym(lo, types.Uint8)}}
+				}
+			}
 			return in.conv(fr, tDst, tSrc, in.concValue(fr, x))
 		}
 		if kd == types.UnsafePointer || kd == types.Invalid {
